@@ -624,23 +624,24 @@ func iteChain(conds, vals []Term) Term {
 // Obligations
 
 type Obligation struct {
-	Name     string // func#label
-	Func     string
-	Label    string
-	Props    []string
-	Star     bool
-	Kind     string // ensures | call.pre | loop.init | loop.step | frame | lemma | nopanic | smoke | vacuity
-	Goal     Term
-	Mark     int // script prefix length
-	Prelude  string
-	Body     string
-	Expect   string // "unsat" normally; "sat" for vacuity/smoke checks
-	Values   []string
-	ValNames []string
-	Result   *SolverResult
-	Clause   *Clause
-	Relaxed  *SolverResult
-	Pos      string
+	Name         string // func#label
+	Func         string
+	Label        string
+	Props        []string
+	Star         bool
+	Kind         string // ensures | call.pre | loop.init | loop.step | frame | lemma | nopanic | smoke | vacuity
+	Goal         Term
+	Mark         int // script prefix length
+	Prelude      string
+	Body         string
+	Expect       string // "unsat" normally; "sat" for vacuity/smoke checks
+	Values       []string
+	ValNames     []string
+	Result       *SolverResult
+	KnownFailing bool
+	Clause       *Clause
+	Relaxed      *SolverResult
+	Pos          string
 }
 
 func (w *World) oblige(kind, label string, cond, goal Term, star bool, props []string) *Obligation {
